@@ -25,6 +25,8 @@ def own_matrix_product(c, n):
     """Reference: product in program order of each gate's own matrix on its qubits."""
     U = np.eye(2 ** n, dtype=complex)
     for op in c.operations:
+        q = tuple(op.qubit_indices)
+        require(len(set(q)) == len(q) and all(0 <= i < n for i in q), lambda: f"operation {op} has invalid qubit indices {q} on {n} qubits")
         U = ref.embed(ref.npm(op.gate.matrix), op.qubit_indices, n) @ U
     return U
 
